@@ -29,14 +29,14 @@ def run(chk, program, tier):
     if res is None:
         return
     consts, sf, cf, stages = res
-    a = cf['assigns']
+    a = F.attr_names(program, cf)
     lower_attrs = {a['exclude_pgns'][1], a['include_pgns'][1]}
     int_attrs = {a['exclude_pgns'][0], a['include_pgns'][0]}
     n = F.norm_rule(chk, program, 'FILTER-NORM', lower_attrs, int_attrs, ['__init__', '_decode', '_call_decode_function'], consts)
     chk.floor('membership_tests', n, 8)
     # FILTER-PURE: arguments handed to add_data / apply_preferred_units and stores do not mention the filter lists
     fn, ex = stages['_call_decode_function']
-    filt = lower_attrs | int_attrs | {cf['flag_attr']}
+    filt = lower_attrs | int_attrs | {a['flag']}
     for e in ex.events:
         if e[0] in ('expr', 'store'):
             t = e[2] if e[0] == 'expr' else e[3]
